@@ -27,6 +27,7 @@ import (
 	"errors"
 	"fmt"
 	"sort"
+	"strings"
 
 	"github.com/danos/mgmterror"
 	"github.com/sdcio/yang-parser/xpath"
@@ -1086,7 +1087,7 @@ func (n *list) OrdBy() string {
 }
 
 func (n *list) Type() Type {
-	return n.children[n.Keys()[0]].Type()
+	return n.keyLeaf().Type()
 }
 func (n *list) CheckCardinality(p xutils.PathType, len int) error {
 	return cardinalityInRange(p, n.Limit().Min, n.Limit().Max, len)
@@ -1100,8 +1101,10 @@ func (n *list) Validate(ctx ValidateCtx, path []string, p []string) error {
 		return NewMissingValueError(path)
 	}
 	//TODO(jhs): Multipart keys
-	key := n.Keys()[0]
-	k := n.children[key]
+	k := n.keyLeaf()
+	if k == nil {
+		return NewPathInvalidError(path, p[0])
+	}
 
 	if err := k.Validate(ctx, path, []string{p[0]}); err != nil {
 		return err
@@ -1119,6 +1122,23 @@ func (n *list) Validate(ctx ValidateCtx, path []string, p []string) error {
 	}
 	path = append(path, p[0])
 	return c.Validate(ctx, path, p[1:])
+}
+
+// keyLeaf is the leaf the (first) key names: a child of the entry or, when
+// the key is written as a descendant path, a leaf below containers of it.
+func (n *list) keyLeaf() Node {
+	var k Node
+	for i, seg := range strings.Split(n.Keys()[0], "/") {
+		if i == 0 {
+			k = n.children[seg]
+		} else {
+			k = k.Child(seg)
+		}
+		if k == nil {
+			return nil
+		}
+	}
+	return k
 }
 
 func (n *list) HasDefault() bool { return false }
